@@ -172,8 +172,13 @@ def run_shards(modname, fn, ctx, shards, nproc=None):
 # Hypothesis driver: collect several root causes, shrink each
 
 
+class _StopShrink(BaseException):
+    """Ends Hypothesis' shrink phase once its evaluation budget is used up."""
+
+
 def hyp_search(strategy, prop, max_examples, seed, res, max_buckets=4,
-               shrink=True, known=None):
+               shrink=True, known=None, shrink_budget=1500, keyfn=repr,
+               extra_time_cap=45.0):
     """Run `prop(value)` over `strategy`.
 
     prop raises Violation on failure.  Each distinct Violation.kind is shrunk
@@ -185,10 +190,21 @@ def hyp_search(strategy, prop, max_examples, seed, res, max_buckets=4,
     from hypothesis import given, settings, HealthCheck, Phase
     phases = [Phase.generate] + ([Phase.shrink] if shrink else [])
     suppressed = set()
+    t_start = time.time()
     for attempt in range(max_buckets + 1):
-        state = {'target': None, 'last': None}
+        # once a violation is known the verdict is fixed; further attempts only look for
+        # additional root causes and are bounded in cases and wall-clock time
+        if attempt and time.time() - t_start > extra_time_cap:
+            res.notes.append('stopped looking for further root causes after %.0fs' % (time.time() - t_start))
+            break
+        state = {'target': None, 'last': None, 'budget': shrink_budget}
 
         def body(value):
+            if state['target'] is not None:
+                # bound the shrink phase by evaluations (Hypothesis' own cap is 5 minutes)
+                state['budget'] -= 1
+                if state['budget'] < 0:
+                    raise _StopShrink()
             try:
                 prop(value)
             except Violation as v:
@@ -205,10 +221,11 @@ def hyp_search(strategy, prop, max_examples, seed, res, max_buckets=4,
                 if v.kind != state['target']:
                     return  # picked up by the next attempt
                 state['last'] = v
+                state['last_key'] = keyfn(value)
                 raise
 
         test = given(strategy)(body)
-        test = settings(max_examples=max_examples, database=None, deadline=None,
+        test = settings(max_examples=max_examples if attempt == 0 else max(50, max_examples // 2), database=None, deadline=None,
                         derandomize=False, report_multiple_bugs=False,
                         phases=phases, print_blob=False,
                         suppress_health_check=[HealthCheck.too_slow,
@@ -217,7 +234,7 @@ def hyp_search(strategy, prop, max_examples, seed, res, max_buckets=4,
         test = hypothesis.seed(seed * 7919 + attempt)(test)
         try:
             test()
-        except Violation:
+        except (Violation, _StopShrink):
             v = state['last']
             res.violations.append(v.record())
             suppressed.add(v.kind)
